@@ -113,17 +113,30 @@ def gen_case(ch: Chooser, tier: str = "quick") -> dict:
                 elif kind == "call":
                     out.append(["decl", "Signal", c.fresh("t"), ["call", "scale", [g.sig_leaf(), itv]]])
                 elif kind == "nest":
-                    iv = f"j{depth}"
+                    iv = f"jt{depth}"
                     it = _range(ch, {})
                     out.append(["for", iv, it, body(depth + 1, iters + [iv], budget)])
             return out
 
         nonlocal_state = [False]
         n_loops = ch.rint(1, 2)
+        rebind = ch.chance(1, 4)
+        if rebind:
+            c.stmts.append(["place", "cur", "small-lamp", ["lit", 30, 10], ["lit", -14, 10], None])
         for li in range(n_loops):
-            iv = f"i{li}"
+            iv = f"it{li}"
             it = _range(ch, ints)
-            c.stmts.append(["for", iv, it, body(1, [iv], [0])])
+            b = body(1, [iv], [0])
+            if rebind and li == 0:
+                row[0] += 1
+                b.append(["assign", "cur", ["place", None, "small-lamp",
+                                            ["bin", "+", ["bin", "*", ["var", iv], ["lit", 2, 10]], ["lit", 50, 10]],
+                                            ["lit", row[0] * 2 - 12, 10], None]])
+                if ch.chance(1, 2):
+                    b.append(["enable", "cur", ["bin", ch.pick(lang.CMP_OPS), g.sig_leaf(), ["var", iv]]])
+            c.stmts.append(["for", iv, it, b])
+        if rebind:
+            c.stmts.append(["enable", "cur", ["bin", ch.pick(lang.CMP_OPS), g.sig_leaf(), ["lit", ch.i32_biased(-9, 9), 10]]])
         stateful = nonlocal_state[0]
         stmts = c.stmts
         try:
